@@ -429,6 +429,8 @@ def finalize(R, prop):
 
     def root_not_removed(E, v, o):
         rem = o["removals"]
+        if type(rem).__name__ == "Iter":  # removals handed over as a one-shot iterator (pyvc.values.Iter): what it held at the call
+            rem = rem.seq
         if hasattr(rem, "has"):  # removals given as a Python set (pyvc.ext_C06.SymSet): membership array
             return z3.Not(rem.has(0))
         j = z3.Int(fresh_name("j"))
